@@ -5,16 +5,19 @@ SPEC = {
     'variants': ['', 't32'],
     'lean_modules': ['N2k.Props.C13'], 'props_files': ['N2k/Props/C13.lean'],
     'translators': ['pgn_tables', 'time_sites'],
-    'case_start': ['scenario', 'devlist'],
+    'case_start': ['scenario', 'devlist', 'probe'],
     'oracle_prefixes': ['C13:'],
     'trusted_base': ["Basic/Time.lean transcribes N2kIsTimeBefore, N2kHasElapsed and tN2kScheduler (32-bit and 64-bit flavour) of N2kTimer.h; "
                      "Model/Heartbeat.lean: tN2kSyncScheduler and the N2kMillis64() roll counter of N2kTimer.cpp",
                      "structural obligation: tools/translators/time_sites.py lists every read of N2kMillis()/N2kMillis64()/millis() and every "
                      "raw comparison or subtraction on a time-typed field in src/ and requires the list to equal the committed, reviewed "
                      "whitelist tools/translators/time_sites_whitelist.json (a new raw comparison is a broken obligation)",
-                     "the machines covered by the shift theorems are the send path, Open(), the address-claim timer, the heartbeat "
-                     "(C13_shift_invariance_partial) and the device list's request pacing of Model/DeviceList.lean (C13_shift_invariance_devlist, "
-                     "unconditional); slot ageing, ISO-TP, pending information and the rest of tN2kDeviceList::HandleMsg are other properties' models"],
+                     "machines covered by shift theorems: send path, Open(), address-claim timer, heartbeat (run level, C13_shift_invariance_partial); "
+                     "reassembly-slot ageing of Model/Rx.lean (C13_shift_invariance_rx, run level, unconditional); ISO-TP sender/receiver timers, BAM pacing "
+                     "and the node's pending information of Model/TP.lean (C13_shift_invariance_tp); pending-information retries of Model/IsoRequest.lean "
+                     "(C13_shift_invariance_pending_info); device-list request pacing of Model/DeviceList.lean (C13_shift_invariance_devlist, "
+                     "unconditional). These models are other properties' (C02, C10, C08, C18), imported read-only and tied to the code by those "
+                     "properties' differential runs; address-claim contention (Model/Claim.lean) and the rest of tN2kDeviceList::HandleMsg have no shift theorem"],
     'assumptions': ["32-bit build: the exact commutation excludes the instants at which a FromNow() lands on the scheduler's all-ones "
                     "'disabled' value (documented 1 ms slack, characterised exactly by C13_primitives_elapsed_only); the harness compares such "
                     "runs with a 1 ms tolerance under dense polling; a pair in which a script operation (configuration, forced heartbeat, claim, "
@@ -31,12 +34,12 @@ MANIFEST = {
             "interval changes, claims, back-pressure), commute with a shift of the clock origin by ANY k for both timer builds (up to "
             "that sentinel millisecond / 64-bit overflow), lifted by induction to whole runs: same log, same frames at the driver and "
             "in the queue, shifted final state. The roll counter behind N2kMillis64() on 32-bit builds is exact up to a constant when "
-            "sampled at least once per 2^32 ms. The device list's request pacing (ReadyForRequest..., Set...Requested, the three request loops, HandleOther) commutes with the shift for EVERY k and every state without side conditions (code as repaired in f104fb3). Structural obligation: every clock read / raw time comparison in src/ is on a reviewed "
+            "sampled at least once per 2^32 ms. The device list's request pacing (ReadyForRequest..., Set...Requested, the three request loops, HandleOther) commutes with the shift for EVERY k and every state without side conditions (code as repaired in f104fb3). So do the reassembly slots with their 100 ms ageing, for whole frame histories; the ISO-TP node (RTS/CTS/EndAck time-outs, BAM pacing, receiver, slots) and the pending product/configuration information retries commute up to the sentinel millisecond. Structural obligation: every clock read / raw time comparison in src/ is on a reviewed "
             "whitelist. Metamorphic oracle: each scenario script (open, CAN-open failure, claims, heartbeats with jitter and long gaps, "
             "interval changes, back-pressure, dense 1 ms polling) is run on the real node from origins 0, 2^31+-k, 2^32-k and the "
             "sentinel instants, both timer builds, and the relative-time outputs are compared. Partial: covers the machines modelled so "
-            "far. The device-list probe (two silent foreign devices, product information / configuration information / PGN list requests) is run from origins 1000, 2^31+-k, 2^32-k on both builds and the request traces must be identical.",
+            "far. The device-list probe (two silent foreign devices, product information / configuration information / PGN list requests) is run from origins 1000, 2^31+-k, 2^32-k on both builds and the request traces must be identical; likewise an ISO-TP probe (RTS/CTS/EndAck, CTS and EndAck time-outs, BAM sent and received, abort), a reassembly-slot probe (stalled senders, recycling after 100 ms) and a pending-information probe (blocked driver, retries every 187+8a / 187+10a ms), with event counters in the evidence.",
     'design_ref': 'DESIGN.md section 4, C13',
-    'note': "partial: slot ageing, ISO-TP, pending-information timers and the device list are tied to the primitives only through the "
-            "structural whitelist, their step functions belong to C02/C08/C10/C18. C13:devlist-zero-sentinel is fixed (f104fb3); its revert is seeded/C13_fixrev_1.",
+    'note': "partial: each timed machine has its own shift theorem over its own model (C02/C08/C10/C18 models imported read-only); there is no "
+            "single composed node model, address-claim contention has no shift theorem. C13:devlist-zero-sentinel is fixed (f104fb3); its revert is seeded/C13_fixrev_1.",
 }
